@@ -3,7 +3,7 @@ import ast
 
 from sa.model import AnalysisError, norm, walk_no_nested
 from sa.roles import ReaderRoles, SPEC_IDS, stream_ops
-from sa.harness import ReaderHarness, Script
+from sa.harness import ReaderHarness, Script, history_to
 from sa.interp import exc_name
 from sa.values import ADict, AList, Unk, concrete, is_concrete, taint_of
 from sa.props.c10 import allowed_var, main_loop
@@ -51,6 +51,15 @@ def option_origin(v):
     return None
 
 
+def history_script(table, X):
+    """(scripts of the shortest legal history before X, their count)."""
+    hist = history_to(table, X)
+    if hist is None:
+        raise AnalysisError('no legal history leads to %s' % X)
+    pre = [Script(s_, options='unknown' if (s_ in CONTENT_IDS or s_ == 'diffx') else 'none') for s_ in hist]
+    return pre, len(hist)
+
+
 def _record_sharing(R, evs, yields, out):
     """Containers handed to the consumer must be the consumer's own: not module/class-level objects,
     not objects the reader keeps, not objects already handed out in an earlier record."""
@@ -84,21 +93,33 @@ def _task(X):
     P, R, table, var, loop, stubs = _CTX[:6]
     H = ReaderHarness(P, R, havoc=True, stub_content=False, unknown_iters=_CTX[6] if len(_CTX) > 6 else (1,))
     H.extra_stubs = stubs
-    preds = [p for p in SPEC_IDS if X in table.get(p, ())]
-    row = frozenset(['diffx']) if X == 'diffx' else frozenset(table[preds[0]])
-    paths, exceeded = H.paths([Script(X, options='unknown')], inject=(loop, lambda I: {var: row}), max_paths=30000)
+    # the section is analysed after a real, legal history (the shortest one), frozen once a feasible way through it
+    # has been found: every loop-carried variable then holds a value the code itself produced
+    hist = history_to(table, X)
+    if hist is None:
+        raise AnalysisError('no legal history leads to %s' % X)
+    pre = [Script(s_, options='unknown' if (s_ in CONTENT_IDS or s_ == 'diffx') else 'none') for s_ in hist]
+    paths, exceeded = H.paths(pre + [Script(X, options='unknown')], max_paths=30000, det_prefix=len(hist))
     if exceeded:
         raise AnalysisError('path budget exceeded for %s' % X)
+    for p_ in paths:
+        # events of the frozen history are not events of the section under analysis
+        cut = [i_ for i_, e_ in enumerate(p_.events) if e_.kind == 'k1-header' and e_.data['index'] == len(hist)]
+        p_.full_events = p_.events
+        p_.events = p_.events[cut[0]:] if cut else p_.events
+        if cut:
+            ent = [e_ for e_ in p_.full_events[:cut[0]] if e_.kind == 'enter' and e_.data['callee'] is R.entry]
+            p_.events = ent[:1] + p_.events
     cf = R.content_fn
     out = {'id': X, 'paths': len(paths), 'yield_paths': 0, 'reads': set(), 'read_n': set(), 'read_facts': [],
            'content_params': set(), 'problems': {}, 'raise_sites': set(), 'caught': set(), 'dict_reads': set(),
            'dict_other': set(), 'stores_per_pair': set(), 'key_compared': set(), 'sub_data': set(), 'sub_flags': set(),
            'order': set(), 'returned': set(), 'newline_checked': set(), 'version': set(), 'format': set(),
            'yields_per_path': set(), 'le_values': set(), 'decode_enc': set(), 'util_encoding': set(), 'record_sharing': set()}
-    paths0, _ex0 = H.paths([Script(X, options='none')], inject=(loop, lambda I: {var: row}), max_paths=30000)
+    paths0, _ex0 = H.paths(pre + [Script(X, options='none')], max_paths=30000, det_prefix=len(hist))
     for p in paths0:
         ys0 = [e for e in p.events if e.kind == 'yield']
-        if ys0:
+        if len(ys0) > len(hist):
             _record_sharing(R, p.events, ys0, out)
     for p in paths:
         evs = p.events
@@ -110,7 +131,8 @@ def _task(X):
                 out['caught'].add((e.fn, exc_name(e.data['exc']), str(getattr(e.data['raise'], 'note', '') or ('raised in %s' % getattr(e.data['raise'], 'origin_fn', None)))[:80]))
         if not yields:
             continue
-        _record_sharing(R, evs, yields, out)
+        fe_ = getattr(p, 'full_events', evs)
+        _record_sharing(R, fe_, [e_ for e_ in fe_ if e_.kind == 'yield'], out)
         out['yield_paths'] += 1
         out['yields_per_path'].add(len(yields))
         rec = yields[0].data['value']
@@ -258,10 +280,7 @@ def _task(X):
 def analyse(P, tier='quick'):
     R = ReaderRoles(P)
     table = P.fold_module_const('pydiffx.sections', 'VALID_SECTION_STATES')
-    var, _ = allowed_var(R)
-    if var is None:
-        raise AnalysisError('allowed-set variable of the reader loop not identified')
-    loop = main_loop(R)
+    var, loop = None, None        # (histories are real: no loop-state injection)
     if R.content_fn is None:
         raise AnalysisError('content-reading function not identified')
     global _CTX
